@@ -1,7 +1,7 @@
 (* C01 — Mesh cells tile the region; index<->coordinate maps are mutually inverse.
    This file holds ONLY statements, each closed by [exact] of a lemma proved in proofs/,
    followed by Print Assumptions. *)
-From DF Require Import Prelude Constants_gen Region Mesh C01_axis C01_nd C01_lattice C01_tiling Check_C01 C01_sound C07_accept C01_bycell C01_bycell2.
+From DF Require Import Prelude Constants_gen Region Mesh C01_axis C01_nd C01_lattice C01_tiling Check_C01 C01_sound C01_sound2 C07_accept C01_bycell C01_bycell2.
 Open Scope Q_scope.
 
 (* centres are pmin + (i + 1/2) * cell, cell = edges / n *)
@@ -246,3 +246,29 @@ Example C01_accepted_point_instance :
   check_C01 (CP2I true [0; 0] [4; 3] [4; 2]%Z (1 # 1000000000000) [7 # 2; 3 # 2] true (Some [3; 1]%Z)) = true.
 Proof. exact accepted_point_instance. Qed.
 Print Assumptions C01_accepted_point_instance.
+
+(* the lattice case (exact regime): observed cell count, iteration order, cell centres and coordinate field
+   are the model's; hence the OBSERVED iteration has prod n entries and holds index i at position
+   i0 + n0*(i1 + n1*(...)) (first dimension fastest) *)
+Theorem C01_check_lattice_sound : forall p1 p2 n_ obs_len obs_indices obs_points obs_cells obs_vertices obs_coord,
+  check_C01 (CLattice true p1 p2 n_ obs_len obs_indices obs_points obs_cells obs_vertices obs_coord) = true ->
+  exists m, build p1 p2 n_ (1 # 1000000000000) = OK m /\
+    mesh_len m = obs_len /\
+    obs_indices = indices_xfast (n m) /\
+    Forall2 (Forall2 Qeq)
+      (map (fun i => match index2point m i with OK p => p | Err _ => [] end) (indices_xfast (n m))) obs_points /\
+    Forall2 (Forall2 Qeq)
+      (map (fun i => match index2point m i with OK p => p | Err _ => [] end) (indices_xfast (n m))) obs_coord.
+Proof. exact check_lattice_sound. Qed.
+Print Assumptions C01_check_lattice_sound.
+Theorem C01_accepted_iteration_order : forall p1 p2 n_ obs_len obs_indices obs_points obs_cells obs_vertices obs_coord,
+  check_C01 (CLattice true p1 p2 n_ obs_len obs_indices obs_points obs_cells obs_vertices obs_coord) = true ->
+  exists m, build p1 p2 n_ (1 # 1000000000000) = OK m /\
+    length obs_indices = nprod (nsizes (n m)) /\
+    forall i, in_range (n m) i -> nth (Z.to_nat (ravel_xfast (n m) i)) obs_indices [] = i.
+Proof. exact accepted_iteration_order. Qed.
+Print Assumptions C01_accepted_iteration_order.
+Theorem C01_shard_verdict : forall cases k,
+  failing k (map check_C01 cases) = [] -> forall c, In c cases -> check_C01 c = true.
+Proof. exact (CheckSound.failing_nil_all check_C01). Qed.
+Print Assumptions C01_shard_verdict.
